@@ -32,7 +32,8 @@ def main(argv=None):
 
     obls = registry.obligations(prop, args.tier, seed)
     if args.only:
-        obls = [o for o in obls if args.only in o.name]
+        pats = [x for x in args.only.split(",") if x]
+        obls = [o for o in obls if any(x in o.name for x in pats)]
     if not obls:
         print("no obligations registered for", prop, file=sys.stderr)
         return 2
